@@ -199,6 +199,15 @@ def propagate_monitors(chk, tier):
         c = {"kind": "propagate", "nmol": nmol, "depth": depth, "reorgs": reorgs, "cortimes": cort, "couplings": coup, "ground": ground}
         try:
             ta, agg, ham, sbi = build_system(nmol, reorgs, cort, T=200, couplings=coup, nt=60, ground=ground)
+            if k % 3 != 0:
+                # a complex Hermitian Hamiltonian: the resonance couplings get a phase (the aggregate's own Hamiltonian object, RWA kept)
+                Hc = numpy.array(ham._data, dtype=complex)
+                for a in range(1, Hc.shape[0]):
+                    for b in range(a + 1, Hc.shape[0]):
+                        ph = numpy.exp(1j * (0.4 + 0.7 * a + 0.3 * b))
+                        Hc[a, b], Hc[b, a] = Hc[a, b] * ph, Hc[b, a] * numpy.conj(ph)
+                ham._data = Hc
+                c["complex_hamiltonian"] = True
             with contextlib.redirect_stdout(io.StringIO()):
                 hy = qr.KTHierarchy(ham, sbi, depth)
             psi = numpy.array([1.0] + [0.5 + 0.3j * (i + 1) for i in range(nmol)])
